@@ -6,7 +6,8 @@ DESCRIPTION = {
     "rule": ("Two sessions (originator, responder) with cryptobox KeyRings are joined through a scripted router (both frameworks, several serializers).  Hypothesis draws the "
              "keyring layout {default key, per-prefix keys, originator-only / responder-only key halves, mismatching keys, a key for the covering prefix installed on both ends "
              "*after* the URIs were first used - messages must then open under the new key with PyNaCl directly, ciphertexts under the superseded key are refused}, URIs/args/kwargs from the JSON domain (bytes, nesting, "
-             "unicode) carrying a unique marker (also requests without any argument, whose result still carries it), and the direction {publish->event, call->invocation, yield->result incl. progressive results, error}.  Fault enumeration in transit: every single-byte "
+             "unicode) carrying a unique marker (also requests without any argument, whose result still carries it), and the direction {publish->event, call->invocation (exact or prefix registration with the concrete procedure in the invocation details), "
+             "yield->result incl. progressive results, error}.  Fault enumeration in transit: every single-byte "
              "alteration of the ciphertext (each position x a drawn non-zero XOR; thorough: several XOR values), truncations, swapping the envelope URI (ciphertext of a.b delivered "
              "under registration/subscription a.c) and replay under another key.  Oracle: untampered => handler/endpoint/caller receive exactly the sent args/kwargs, the WAMP "
              "message has enc_algo='cryptobox', a payload and no args/kwargs, and the serialized bytes do not contain the marker; tampered / wrong key / URI mismatch => the "
@@ -59,7 +60,7 @@ def strategy():
                                   "direction": st.sampled_from(["publish", "call", "call-error"]), "args": vals, "kwargs": kws,
                                   "ser": st.sampled_from(["json", "cbor", "msgpack"]), "xor": st.integers(1, 255), "seed": st.integers(0, 1 << 20),
                                   "empty": st.sampled_from([False, False, False, True]),
-                                  "progress": st.booleans()})     # calls ask for progressive results: encrypted progressive chunks reach on_progress exactly or not at all    # a request without any arguments (the result still carries the secret)
+                                  "progress": st.booleans(), "prefix_reg": st.sampled_from([False, False, True])})     # calls ask for progressive results: encrypted progressive chunks reach on_progress exactly or not at all    # a request without any arguments (the result still carries the secret)
 
 
 def keyrings(layout):
@@ -247,15 +248,21 @@ def check_flow(c, n_xors=1):
                 if fail_with:
                     raise ApplicationError("com.myapp.error.e1", *args, **kwargs)
                 return {"echo": [MARK, list(a)], "kw": {kk: vv for kk, vv in k.items()}}
+            from autobahn.wamp.types import RegisterOptions
             for name, sid in (("com.myapp.proc1", 901), ("com.myapp.proc2", 902)):
-                tr = r.track(r.call(lambda name=name: r.session.register(endpoint, name)))
+                if sid == 901 and c.get("prefix_reg"):
+                    # pattern-based registration: the dealer names the concrete procedure in INVOCATION.details.procedure
+                    tr = r.track(r.call(lambda: r.session.register(endpoint, "com.myapp.pro", RegisterOptions(match="prefix"))))
+                else:
+                    tr = r.track(r.call(lambda name=name: r.session.register(endpoint, name)))
                 r.feed(M.Registered(r.t.sent[-1].request, sid))
             old = None
             if layout == "rekey":
                 tr_w = o.track(o.call(lambda: o.session.call("com.myapp.proc1", "warm-up")))
                 old = o.t.sent[-1]
                 p.rid += 1
-                r.feed(M.Invocation(p.rid, 901, payload=old.payload, enc_algo=old.enc_algo, enc_key=old.enc_key, enc_serializer=old.enc_serializer))
+                r.feed(M.Invocation(p.rid, 901, payload=old.payload, enc_algo=old.enc_algo, enc_key=old.enc_key, enc_serializer=old.enc_serializer,
+                                    procedure="com.myapp.proc1" if c.get("prefix_reg") else None))
                 if len(invoked) != 1 or type(r.t.sent[-1]).__name__ != "Yield":
                     raise Violation("C20|invocation|payload-not-recovered", "warm-up call before the key change: invoked=%r" % (brief(invoked),), c)
                 del invoked[:]
@@ -280,7 +287,8 @@ def check_flow(c, n_xors=1):
             def invoke(payload, reg=901):
                 p.rid += 1
                 n_inv, n_sent = len(invoked), len(r.t.sent)
-                err = r.feed(M.Invocation(p.rid, reg, payload=payload, enc_algo=call.enc_algo, enc_key=call.enc_key, enc_serializer=call.enc_serializer))
+                err = r.feed(M.Invocation(p.rid, reg, payload=payload, enc_algo=call.enc_algo, enc_key=call.enc_key, enc_serializer=call.enc_serializer,
+                                          procedure="com.myapp.proc1" if (reg == 901 and c.get("prefix_reg")) else None))
                 if err is not None:
                     raise Violation("C20|invocation|onMessage-raised|" + exc_key(err), repr(err), c)
                 out = r.t.sent[n_sent:]
@@ -410,7 +418,7 @@ def flows(col, seed, n, xors):
             if in_autobahn(e):
                 raise Violation("C20|exception|" + exc_key(e), repr(e), c)
             raise
-        col.case(True, dig=c, cls=["layout:" + c["layout"], "direction:" + c["direction"], "ser:" + c["ser"]] + (["request-without-arguments"] if c.get("empty") else []) + (["progressive-results"] if c.get("progress") and c["direction"] == "call" else []), sample=dict(c, tampered_variants=stats["tampered"]))
+        col.case(True, dig=c, cls=["layout:" + c["layout"], "direction:" + c["direction"], "ser:" + c["ser"]] + (["request-without-arguments"] if c.get("empty") else []) + (["progressive-results"] if c.get("progress") and c["direction"] == "call" else []) + (["prefix-registration"] if c.get("prefix_reg") and c["direction"] != "publish" else []), sample=dict(c, tampered_variants=stats["tampered"]))
         col.count("tampered-ciphertexts", stats["tampered"])
     run_hypothesis(col, "flows", strategy(), body, n, seed)
 
